@@ -120,3 +120,107 @@ Print Assumptions C15_stream32_eq_iff.
 Print Assumptions C15_stream32_eq_iff_seek.
 Print Assumptions C15_param_index_agrees.
 Print Assumptions C15_examples.
+
+(* ---- lines to add to Props/C15.v ---- *)
+From CC Require Import Proofs.ChaChaGutsHistory.
+
+(** * histories of the block API: [new], then any finite sequence of [refill] / [refill4] /
+    [set_stream_param] / [get_stream_param] ([g_run], [None] = a failed operation), against the
+    abstract machine [abstract_run] over (counter, stream id) written with Spec/ChaCha.v alone
+    (definitions in Proofs/ChaChaGutsHistory.v; [gop_ok]: parameter < 2, value < 2^64) *)
+Theorem C15_history_eq_abstract_machine :
+  forall drounds key nonce ops,
+    Forall is_byte key -> length key = 32%nat -> Forall is_byte nonce -> length nonce = 8%nat ->
+    Forall gop_ok ops ->
+    g_run drounds (init_chacha key nonce) ops
+    = Some (fst (abstract_run drounds key (0, le_join nonce) ops),
+            seek64 (init_chacha key (le_split 8 (snd (snd (abstract_run drounds key (0, le_join nonce) ops)))))
+                   (fst (snd (abstract_run drounds key (0, le_join nonce) ops))))
+    /\ fst (snd (abstract_run drounds key (0, le_join nonce) ops)) < 2^64
+    /\ snd (snd (abstract_run drounds key (0, le_join nonce) ops)) < 2^64.
+Proof. exact guts_history. Qed.
+
+Theorem C15_history_never_fails :
+  forall drounds key nonce ops,
+    Forall is_byte key -> length key = 32%nat -> Forall is_byte nonce -> length nonce = 8%nat ->
+    Forall gop_ok ops ->
+    g_run drounds (init_chacha key nonce) ops <> None.
+Proof. exact guts_history_never_fails. Qed.
+
+(** values that are not a u64 are taken modulo 2^64 (only the parameter guard is left) *)
+Theorem C15_history_any_value :
+  forall drounds key nonce ops,
+    Forall is_byte key -> length key = 32%nat -> Forall is_byte nonce -> length nonce = 8%nat ->
+    Forall gop_ok_param ops ->
+    let ar := abstract_run drounds key (0, le_join nonce) (map norm_op ops) in
+    g_run drounds (init_chacha key nonce) ops
+    = Some (fst ar, seek64 (init_chacha key (le_split 8 (snd (snd ar)))) (fst (snd ar))).
+Proof. exact guts_history_any_value. Qed.
+
+(** two histories that reach the same abstract (counter, id) are in the same model state and are
+    followed by identical observations *)
+Theorem C15_history_independence :
+  forall drounds key nonce1 nonce2 ops1 ops2 rest,
+    Forall is_byte key -> length key = 32%nat ->
+    Forall is_byte nonce1 -> length nonce1 = 8%nat -> Forall is_byte nonce2 -> length nonce2 = 8%nat ->
+    Forall gop_ok ops1 -> Forall gop_ok ops2 -> Forall gop_ok rest ->
+    let a1 := abstract_run drounds key (0, le_join nonce1) ops1 in
+    let a2 := abstract_run drounds key (0, le_join nonce2) ops2 in
+    snd a1 = snd a2 ->
+    let tail := abstract_run drounds key (snd a1) rest in
+    g_run drounds (init_chacha key nonce1) ops1 = Some (fst a1, rep key (snd a1)) /\
+    g_run drounds (init_chacha key nonce2) ops2 = Some (fst a2, rep key (snd a1)) /\
+    g_run drounds (init_chacha key nonce1) (ops1 ++ rest) = Some (fst a1 ++ fst tail, rep key (snd tail)) /\
+    g_run drounds (init_chacha key nonce2) (ops2 ++ rest) = Some (fst a2 ++ fst tail, rep key (snd tail)).
+Proof. exact guts_history_independence. Qed.
+
+(** [stream64_eq] of the states two histories (same key) end in: true iff the abstract ids agree *)
+Theorem C15_history_stream64_eq :
+  forall drounds key nonce1 nonce2 ops1 ops2 o1 o2 s1 s2,
+    Forall is_byte key -> length key = 32%nat ->
+    Forall is_byte nonce1 -> length nonce1 = 8%nat -> Forall is_byte nonce2 -> length nonce2 = 8%nat ->
+    Forall gop_ok ops1 -> Forall gop_ok ops2 ->
+    g_run drounds (init_chacha key nonce1) ops1 = Some (o1, s1) ->
+    g_run drounds (init_chacha key nonce2) ops2 = Some (o2, s2) ->
+    let f1 := snd (abstract_run drounds key (0, le_join nonce1) ops1) in
+    let f2 := snd (abstract_run drounds key (0, le_join nonce2) ops2) in
+    (stream64_eq s1 s2 = true <-> snd f1 = snd f2) /\
+    (stream64_eq s1 s2 = true <-> s2 = seek64 s1 (fst f2)).
+Proof. exact guts_history_stream64_eq. Qed.
+
+(** one [refill4] across the wrap of the 64-bit counter: blocks 2^64-2, 2^64-1, 0, 1 *)
+Theorem C15_history_refill4_wraps :
+  forall drounds key nonce,
+    Forall is_byte key -> length key = 32%nat -> Forall is_byte nonce -> length nonce = 8%nat ->
+    exists sf,
+    g_run drounds (init_chacha key nonce) [GSet 0 (2^64 - 2); GRefill4; GGet 0]
+    = Some ([GUnit;
+             GOut (Spec.ChaCha.spec_block Spec.ChaCha.Djb drounds key nonce (2^64 - 2) ++
+                   Spec.ChaCha.spec_block Spec.ChaCha.Djb drounds key nonce (2^64 - 1) ++
+                   Spec.ChaCha.spec_block Spec.ChaCha.Djb drounds key nonce 0 ++
+                   Spec.ChaCha.spec_block Spec.ChaCha.Djb drounds key nonce 1);
+             GVal 2], sf)
+    /\ sf = seek64 (init_chacha key nonce) 2.
+Proof. exact guts_refill4_wraps. Qed.
+
+(** [new] with a 12-byte nonce: the same machine from counter = 2^32 * nonce word 0, id = nonce words 1,2 *)
+Theorem C15_history_nonce12 :
+  forall drounds key nonce ops,
+    Forall is_byte key -> length key = 32%nat -> Forall is_byte nonce -> length nonce = 12%nat ->
+    Forall gop_ok ops ->
+    let st0 := (2^32 * le_join (firstn 4 nonce), le_join (skipn 4 nonce)) in
+    g_run drounds (init_chacha key nonce) ops
+    = Some (fst (abstract_run drounds key st0 ops), rep key (snd (abstract_run drounds key st0 ops)))
+    /\ astate_ok (snd (abstract_run drounds key st0 ops)).
+Proof. exact guts_history_nonce12. Qed.
+
+Definition C15_history_example := guts_history_example.
+
+Print Assumptions C15_history_eq_abstract_machine.
+Print Assumptions C15_history_never_fails.
+Print Assumptions C15_history_any_value.
+Print Assumptions C15_history_independence.
+Print Assumptions C15_history_stream64_eq.
+Print Assumptions C15_history_refill4_wraps.
+Print Assumptions C15_history_nonce12.
+Print Assumptions C15_history_example.
